@@ -40,6 +40,11 @@ class ContinueEx(Exception):
     pass
 
 
+class _Line:
+    def __init__(self, lineno):
+        self.lineno = lineno
+
+
 class RaiseEx(Exception):
     def __init__(self, exc_name, node=None):
         self.exc_name = exc_name
@@ -212,6 +217,7 @@ class State:
         self.path_id = ""
         self.binder_asms: list = []  # stack of lists collecting typing assumptions under quantifier binders
         self.call_records: list = []  # contract-abstracted calls in order (for replay)
+        self.fresh_base: list = []
         self.objs: list = []  # (term, ClassInfo) of object-typed values met so far (candidates when grounding forall_obj)
         self.entry_params: Dict[str, Any] = {}
 
@@ -367,13 +373,15 @@ class State:
         if k in ("list", "tuple"):
             r = smt.rid(t)
             cid = LIST_CID if k == "list" else TUPLE_CID
+            small = []
             return z3.And(smt.is_ref(t), r > 0, r < self.alloc, z3.Select(self.arr("llen"), r) >= 0,
-                          z3.Select(self.arr("cls"), r) == cid)
+                          z3.Select(self.arr("cls"), r) == cid, *small)
         if k in ("dict", "set"):
             r = smt.rid(t)
             cid = DICT_CID if k == "dict" else SET_CID
+            small = []
             return z3.And(smt.is_ref(t), r > 0, r < self.alloc, z3.Select(self.arr("dsz"), r) >= 0,
-                          z3.Select(self.arr("cls"), r) == cid)
+                          z3.Select(self.arr("cls"), r) == cid, *small)
         return None
 
 
@@ -399,7 +407,7 @@ def enum_value_sv(ci: ClassInfo, name) -> SV:
 
 # ------------------------------------------------------------------------------------------------ interpreter
 PURE_BUILTINS = {"len", "isinstance", "int", "str", "bool", "float", "min", "max", "abs", "old", "implies", "iff",
-                 "forall", "exists", "forall_obj", "exists_obj", "type", "hasattr", "getattr", "IPv4Address", "ite", "bit"}
+                 "forall", "exists", "forall_obj", "exists_obj", "type", "hasattr", "getattr", "IPv4Address", "ite", "bit", "fresh"}
 
 
 class Interp:
@@ -562,6 +570,21 @@ class Interp:
             if (ka in numk or ka == "any") and (kb in numk or kb == "any"):
                 return z3.Or(a.t == b.t, z3.And(na, nb, nv(a.t) == nv(b.t)))
         return a.t == b.t
+
+    def safety(self, exc: str, label: str, cond, line=0):
+        """A Python-level failure condition (IndexError/KeyError/...): when an enclosing try catches it or the
+        function's contract lists it under `raises`, it becomes a real control-flow edge; otherwise an obligation."""
+        st = self.st
+        if st.spec_depth:
+            return
+        catching = any(exc in names or "Exception" in names for names in st.cfg.get("_catch", []))
+        top = st.cfg.get("contract")
+        listed = top is not None and exc in top.raises
+        if (catching or listed) and not st.guards:
+            if not st.branch(cond):
+                raise RaiseEx(exc, _Line(line))
+            return
+        st.oblige("safety", label, cond, line)
 
     # ---------------------------------------------------------------- name resolution
     def resolve_global(self, name, fr: Frame):
@@ -1229,7 +1252,7 @@ class Interp:
         n = self.list_len(l)
         i, _ = self.num(idx)
         i = smt.simp(i)
-        self.st.oblige("safety", label, z3.And(i >= -n, i < n), line)
+        self.safety("IndexError", label, z3.And(i >= -n, i < n), line)
         return smt.simp(z3.If(i < 0, i + n, i))
 
     def getitem(self, base, idx, node=None):
@@ -1248,7 +1271,7 @@ class Interp:
             ms = enum_member_terms(base.ci)
             idx = self.to_sv(idx)
             names = list(ms)
-            st.oblige("safety", f"enum_key.{base.ci.name}", z3.Or(*[idx.t == const(n).t for n in names]), line)
+            self.safety("KeyError", f"enum_key.{base.ci.name}", z3.Or(*[idx.t == const(n).t for n in names]), line)
             res = ms[names[-1]]
             for n in reversed(names[:-1]):
                 res = z3.If(idx.t == const(n).t, ms[n], res)
@@ -1270,7 +1293,7 @@ class Interp:
             st.assume_wt(v)
             return v
         if ty.k == "dict":
-            st.oblige("safety", "key", self.dict_has(base, idx), line)
+            self.safety("KeyError", "key", self.dict_has(base, idx), line)
             v = self.dict_get(base, idx)
             st.assume_wt(v)
             return v
@@ -1283,7 +1306,7 @@ class Interp:
                 return self.list_get(l, i)
             d = SV(base.t, T.DICT())
             st.oblige("safety", "subscript_of_nondict", smt.is_ref(base.t), line)
-            st.oblige("safety", "key", self.dict_has(d, idx), line)
+            self.safety("KeyError", "key", self.dict_has(d, idx), line)
             return self.dict_get(d, idx)
         raise Refuse(f"subscript of value of type {ty}")
 
